@@ -437,8 +437,9 @@ class KeyFlow:
                     kv = ev(k, env, refine)
                     if kv.kind != "str":
                         return AV("top")
-                    if isinstance(v, ast.Dict):
-                        inner = ev(v, env, refine)
+                    inner = ev(v, env, refine) if isinstance(v, (ast.Dict, ast.Name)) else None
+                    if isinstance(v, ast.Dict) or (inner is not None and inner.kind == "dict" and not isinstance(k, ast.Constant)):
+                        # {<statement name>: {operands}} - the operand dictionary written in place or built up in a local
                         for name in kv.data:
                             cmd[name] = set(inner.data) if inner.kind == "dict" else {EMPTY}
                     else:
